@@ -64,6 +64,15 @@ Definition from_data_v23 (tflags : Z) (data : list Z) : result (list Z) :=
 Definition tag_body_v23 (f_unsynch : bool) (data : list Z) : result (list Z) :=
   if f_unsynch then unsynch_decode_or_keep data else Ok data.
 
+(* read_frames for any major version (2, 3, 4): v2.2 and v2.3 tags are destuffed as a whole before the frames are
+   cut, v2.4 tags per frame (from_data_v24).  `id3.version < ID3Header._V24` on (2, major, 0) is major < 4. *)
+Definition read_frames_head (major : Z) (f_unsynch : bool) (data : list Z) : result (list Z) :=
+  if (major <? 4) && f_unsynch then unsynch_decode_or_keep data else Ok data.
+
+(* v2.2 frames (6-byte header, no flags): `tag._fromData(id3, 0, framedata)` with version (2, 2, 0) takes
+   neither branch of Frame._fromData -- the frame data goes to _readData as it is *)
+Definition from_data_v22 (data : list Z) : result (list Z) := Ok data.
+
 (* ---- writer side (specification): compression innermost, then the data length indicator, then the
    unsynchronisation scheme over everything after the frame header (v2.4) / over the whole tag (v2.3) *)
 Variable deflate : list Z -> list Z.
